@@ -56,6 +56,7 @@ class NativeVC:
         self._intern = {}
         self._stash = {}
         self._cut = None
+        self._cleanups = []
 
     def _get(self, name):
         if name not in self.model:
@@ -225,6 +226,27 @@ class NativeVC:
     def body(self, f):
         return f
 
+    def install_loop(self, loop):
+        import asyncio
+
+        from contracts import looplib
+
+        saved = (asyncio.get_event_loop, asyncio.get_running_loop, asyncio.create_task, asyncio.Event)
+        asyncio.get_event_loop = lambda: loop
+        asyncio.get_running_loop = lambda: loop
+        asyncio.create_task = loop.create_task
+        asyncio.Event = looplib.Event
+        self._cleanups.append(lambda: [setattr(asyncio, n, v) for n, v in zip(("get_event_loop", "get_running_loop", "create_task", "Event"), saved)])
+        return loop
+
+    def cleanup(self):
+        for c in reversed(self._cleanups):
+            try:
+                c()
+            except Exception:
+                pass
+        self._cleanups.clear()
+
     def run(self, coro):
         import asyncio
 
@@ -343,7 +365,10 @@ def run(modname, fname, model):
     vc = NativeVC(model)
     crashed = None
     try:
-        fn(vc)
+        try:
+            fn(vc)
+        finally:
+            vc.cleanup()
     except ReplayInvalid as exc:
         return {"verdict": "invalid", "reason": str(exc), "results": vc.results}
     except BaseException as exc:  # noqa: BLE001
@@ -490,7 +515,17 @@ class GenVC(NativeVC):
 
     def bytes(self, name, minlen=0, maxlen=None, native_from=None, hint=None):
         r = self.rng
-        if hint == "sd" and r.random() < 0.9:
+        if hint == "sd-datagram" and r.random() < 0.9:
+            b = b""
+            for _ in range(r.choice([1, 1, 2])):
+                pl = self._sd_bytes()
+                sid = r.choice([0xFFFF, 0xFFFF, 0xFFFF, 0xFFFE])
+                mid = r.choice([0x8100, 0x8100, 0x8100, 0x8101])
+                iv = r.choice([1, 1, 1, 0, 2])
+                mt = r.choice([2, 2, 2, 0, 0x80])
+                rc = r.choice([0, 0, 0, 1])
+                b += sid.to_bytes(2, "big") + mid.to_bytes(2, "big") + (len(pl) + 8).to_bytes(4, "big") + bytes([0, 0]) + r.randrange(65536).to_bytes(2, "big") + bytes([1, iv, mt, rc]) + pl
+        elif hint == "sd" and r.random() < 0.9:
             b = self._sd_bytes()
         elif hint == "option" and r.random() < 0.9:
             b = self._option_bytes() + bytes(r.randrange(256) for _ in range(r.choice([0, 0, 3])))
@@ -629,7 +664,10 @@ def fuzz(modname, fname, n, seed, budget_s):
             break
         vc = GenVC(rng)
         try:
-            fn(vc)
+            try:
+                fn(vc)
+            finally:
+                vc.cleanup()
         except _Discard:
             discarded += 1
             continue
